@@ -35,9 +35,25 @@ class EnumVal:
 
 
 class Masked:
-    """A[mask] for a boolean mask array: kept symbolic for masked stores."""
+    """A[mask] for a boolean mask array: kept symbolic (a compaction of unknown length)."""
+    _n = [0]
 
-    def __init__(s, arr, mask): s.arr = arr; s.mask = mask
+    def __init__(s, arr, mask):
+        s.arr = arr; s.mask = mask
+        Masked._n[0] += 1
+        s.ident = Masked._n[0]
+        KIND.setdefault(f"count(mask#{s.ident})", "nat")
+
+    @property
+    def ndim(s): return 1
+
+    def count(s): return X.var(f"count(mask#{s.ident})")
+
+    def as_arr(s):
+        v = fresh("c")
+        ARRAY_KIND.setdefault(f"compact#{s.ident}", "real")
+        return Arr([(v, s.count())], mk_idx(f"compact#{s.ident}", [X.var(v)]))
+
     def __repr__(s): return f"Masked({s.arr!r})"
 
 
@@ -149,6 +165,8 @@ def compare(interp, op, a, b, node):
         return pv_apply(f, a, b)
     if is_opaque(a): return a
     if is_opaque(b): return b
+    if isinstance(a, Masked): a = a.as_arr()
+    if isinstance(b, Masked): b = b.as_arr()
     if isinstance(a, (Arr, ArrParam)) or isinstance(b, (Arr, ArrParam)):
         A = as_arr(a); B = as_arr(b)
         base = arr_op2("-", a, b)
@@ -158,11 +176,27 @@ def compare(interp, op, a, b, node):
     return pv_apply(lambda x, y: x if is_opaque(x) else y if is_opaque(y) else scal_compare(op, x, y, text), a, b)
 
 
+def dkey(v):
+    """dictionary key for a (possibly symbolic) value; None if not usable as a key."""
+    if isinstance(v, (str, bool)) or v is None: return v
+    if isinstance(v, int): return v
+    if isinstance(v, X):
+        k = v.as_int()
+        return k if k is not None else ("sym", v.keystr())
+    if isinstance(v, tuple):
+        ks = tuple(dkey(e) for e in v)
+        return None if any(k is None and e is not None for k, e in zip(ks, v)) else ks
+    if isinstance(v, (Lib,)): return ("lib", v.name)
+    if isinstance(v, Func): return ("func", v.key)
+    if isinstance(v, PV): return ("pv", repr(vkey(v)))
+    return None
+
+
 def _member(a, b, text):
     if is_opaque(a): return a
     if isinstance(b, DictVal):
-        k = a if isinstance(a, str) else None
-        if k is None: return Opaque("dict membership of non-string")
+        k = dkey(a)
+        if k is None: return Opaque("dict membership of an unhashable abstract value")
         if k in b.d:
             v = b.d[k]
             if isinstance(v, PV): return pv_apply(lambda x: not (x.__class__.__name__ == "_Missing"), v)
@@ -219,6 +253,7 @@ def get_attr(interp, o, attr, st, node):
         return Opaque(f"attribute {attr}")
     if isinstance(o, (Arr, ArrParam, LocalArr, Masked)):
         if attr == "shape":
+            if isinstance(o, Masked): return (o.count(),)
             if isinstance(o, ArrParam): return tuple(o.shape(k) for k in range(o.ndim))
             if isinstance(o, LocalArr): return tuple(o.shape)
             if isinstance(o, Arr): return tuple(c for _, c in o.axes)
@@ -309,9 +344,8 @@ def subscript_value(interp, o, idx, st):
             return subst_val(val, {var: xi})
         return Opaque("symbolic index into list")
     if isinstance(o, DictVal):
-        k = idx[0]
-        if isinstance(k, X) and k.as_int() is not None: k = k.as_int()
-        if isinstance(k, (str, int)) and k in o.d: return o.d[k]
+        k = dkey(idx[0] if len(idx) == 1 else tuple(idx))
+        if k is not None and k in o.d: return o.d[k]
         return Opaque(f"dict key {k!r}")
     if isinstance(o, Obj):
         h = getattr(o, "hook", None)
@@ -486,9 +520,8 @@ def local_to_arr_slice(L, idx, st):
 def store_subscript(interp, o, t, v, st, aug):
     idx = _norm_index(interp, t, st)
     if isinstance(o, DictVal):
-        k = idx[0]
-        if isinstance(k, X) and k.as_int() is not None: k = k.as_int()
-        if isinstance(k, (str, int)): o.d[k] = v
+        k = dkey(idx[0] if len(idx) == 1 else tuple(idx))
+        if k is not None: o.d[k] = v
         else: o.open = True
         return
     if isinstance(o, Obj):
